@@ -913,6 +913,11 @@ func (fr *frame) symLoad(p *symptr) value {
 		return load(p.elemT, &p.elems[i])
 	}
 	n := len(p.elems)
+	if n > 4 && k != types.Bool {
+		if t, ok := fr.tableTerm(p.elems, k, p.idx); ok {
+			return mkSymInt(t, k)
+		}
+	}
 	res := fr.termOf(p.elems[n-1])
 	for i := n - 2; i >= 0; i-- {
 		res = c.Ite(c.Eq(p.idx, c.BV(uint64(i), 64)), fr.termOf(p.elems[i]), res)
